@@ -21,6 +21,10 @@ def main() -> int:
             from checks import rules_family
 
             return rules_family.run(a.prop, tier, a.seed)
+        if a.prop == "C05":
+            from checks import c05
+
+            return c05.run(tier, a.seed)
         if a.prop == "C13":
             from checks import c13
 
